@@ -4,12 +4,17 @@ and record which rules report it (by applying it to /repo, running the property'
 import json, os, re, shutil, subprocess, sys
 prop, k = sys.argv[1], sys.argv[2]
 confirm = " ".join(sys.argv[3:])
-ROUND2 = os.environ.get("SEED_ROUND") == "2"
-src = f"/tmp/{'r2' if ROUND2 else 'wt'}_{prop}/_seed/{k}"
-dst = f"/verif/seeded/{prop}-{'r2-' if ROUND2 else ''}{k}"
+ROUND = os.environ.get("SEED_ROUND", "1")
+PFX = {"1": "wt", "2": "r2", "3": "r3", "4": "r4"}[ROUND]
+ROUND2 = ROUND == "2"
+src = f"/tmp/{PFX}_{prop}/_seed/{k}"
+dst = f"/verif/seeded/{prop}-{'' if ROUND == '1' else 'r' + ROUND + '-'}{k}"
 os.makedirs(dst, exist_ok=True)
 for f in ("patch.diff", "demo.py", "notes.md"):
-    shutil.copy(os.path.join(src, f), os.path.join(dst, f))
+    if os.path.exists(os.path.join(src, f)) or f != "notes.md":
+        shutil.copy(os.path.join(src, f), os.path.join(dst, f))
+    else:
+        open(os.path.join(dst, f), "w").write("(the seeding agent left no notes)\n")
 # run the property's check on a scratch copy of btclib/ with the patch applied (never on /repo itself)
 import importlib.util
 _spec = importlib.util.spec_from_file_location("seeds", "/verif/selftest/seeds.py")
@@ -24,7 +29,7 @@ meta = {
     "files_touched": sorted(set(re.findall(r"^\+\+\+ b/(\S+)", open(os.path.join(dst, "patch.diff")).read(), re.M))),
     "needs_to_manifest": notes[:1500],
     "confirmed_by_me": confirm,
-    "what_i_ran": [f"/verif/selftest/confirm_seeds.sh /tmp/{'r2' if ROUND2 else 'wt'}_{prop}  (demo on clean tree -> exit 0; git apply patch; demo -> exit 1; full pytest suite with the patch -> same counts as baseline; git checkout -- .)",
+    "what_i_ran": [f"/verif/selftest/confirm_seeds.sh /tmp/{PFX}_{prop}  (demo on clean tree -> exit 0; git apply patch; demo -> exit 1; full pytest suite with the patch -> same counts as baseline; git checkout -- .)",
                    f"/verif/selftest/seeds.py {prop}-{k}  (patch applied to a scratch copy of /repo/btclib; VERIF_REPO=<copy> /verif/check {prop} --tier thorough; copy removed)"],
     "caught_by_check": caught,
     "reporting_rules": rules,
